@@ -47,7 +47,10 @@ def gpo_cfgs(tier, base_id, algos=("GPO", "PCT", "VPCT"), patterns=("g", "neg", 
             box = rnd.choice([b for b in PC.BOXES if len(b) == D])
             i += 1
             T = n if rnd.random() < 0.8 else rnd.randint(2, n)
-            cfgs.append({"id": i, "algo": algo, "kind": kind, "K": Kk, "D": D, "box": box, "n": n, "T": T, "prm": {"rhomax": rhomax, "numax": rnd.choice([1, 1.0, 0.5, 2.5]), "base": rnd.choice(["T_HOO", "HCT", "VHCT"])}, "pattern": rnd.choice(patterns), "seed": rnd.randrange(1 << 30), "rtype": [None, "f32", "f64", "i64", "int", None][rep % 6]})
+            cfgs.append({"id": i, "algo": algo, "kind": kind, "K": Kk, "D": D, "box": box, "n": n, "T": T, "prm": {"rhomax": rhomax, "numax": rnd.choice([1, 1.0, 0.5, 2.5]), "base": rnd.choice(["T_HOO", "HCT", "VHCT"])}, "pattern": rnd.choice(patterns), "seed": rnd.randrange(1 << 30), "rtype": [None, "f32", "f64", "i64", "int", None][rep % 6],
+                         # recommendation queries in the middle of phases (exploration and validation halves): a query is a pure read
+                         "queries": (sorted(rnd.sample(range(T), min(T, 8))) if rep % 3 == 0 else (list(range(T)) if rep % 3 == 1 and T <= 300 else [])),
+                         "midq": sorted(rnd.sample(range(T), min(T, 4))) if rep % 4 == 2 else []})
     return cfgs
 
 
